@@ -56,12 +56,21 @@ type raceDigest struct {
 	log []string // first few observations, for the failure report
 }
 
+func (d *raceDigest) mix(b []byte) {
+	h := uint64(14695981039346656037)
+	for _, c := range b {
+		h = (h ^ uint64(c)) * 1099511628211
+	}
+	d.h = d.h*1099511628211 ^ h
+	d.n++
+}
+
+// add records one observation.  fmt is used only for the first few (kept for the failure report) and
+// for observations that are rare; the per-step observations of the CPU jobs go through addv, because
+// fmt's internal sync.Pool would add happens-before edges between goroutines and blunt the race detector.
 func (d *raceDigest) add(format string, a ...interface{}) {
 	s := fmt.Sprintf(format, a...)
-	f := fnv.New64a()
-	f.Write([]byte(s))
-	d.h = d.h*1099511628211 ^ f.Sum64()
-	d.n++
+	d.mix([]byte(s))
 	if len(d.log) < 6 {
 		if len(s) > 160 {
 			s = s[:160] + "..."
@@ -69,6 +78,30 @@ func (d *raceDigest) add(format string, a ...interface{}) {
 		d.log = append(d.log, s)
 	}
 }
+
+// addv: text + numbers, no fmt unless the observation is one of the first few.
+func (d *raceDigest) addv(text []byte, vals ...uint64) {
+	if len(d.log) < 6 {
+		d.add("%s %x", text, vals)
+		return
+	}
+	var buf [8]byte
+	h := uint64(14695981039346656037)
+	for _, c := range text {
+		h = (h ^ uint64(c)) * 1099511628211
+	}
+	for _, v := range vals {
+		for i := 0; i < 8; i++ {
+			buf[i] = byte(v >> (8 * i))
+		}
+		for _, c := range buf {
+			h = (h ^ uint64(c)) * 1099511628211
+		}
+	}
+	d.h = d.h*1099511628211 ^ h
+	d.n++
+}
+
 func (d *raceDigest) String() string { return fmt.Sprintf("%016x/%d", d.h, d.n) }
 
 func raceGuard(d *raceDigest, what string, f func()) {
@@ -223,8 +256,12 @@ func raceCPU65(seed uint64) *raceDigest {
 		raceGuard(d, "step", func() {
 			o = c.DisassembleCurrentPC(o[:0])
 			n, stop := c.Step()
-			d.add("%s -> %d %v pc=%02x:%04x A=%04x/%02x%02x X=%04x/%02x Y=%04x/%02x SP=%04x D=%04x DBR=%02x f=%02x E=%d all=%d",
-				o, n, stop, c.RK, c.PC, c.RA, c.RAh, c.RAl, c.RX, c.RXl, c.RY, c.RYl, c.SP, c.RD, c.RDBR, c.Flags(), c.E, c.AllCycles)
+			st := uint64(0)
+			if stop {
+				st = 1
+			}
+			d.addv(o, uint64(n), st, uint64(c.RK), uint64(c.PC), uint64(c.RA), uint64(c.RAh), uint64(c.RAl), uint64(c.RX), uint64(c.RXl),
+				uint64(c.RY), uint64(c.RYl), uint64(c.SP), uint64(c.RD), uint64(c.RDBR), uint64(c.Flags()), uint64(c.E), c.AllCycles)
 		})
 		if i%97 == 50 {
 			c.TriggerIRQ()
@@ -258,8 +295,12 @@ func raceCPUAlt(seed uint64) *raceDigest {
 			tb.Reset()
 			c.DisassembleCurrentPC(&tb)
 			n, stop := c.Step()
-			d.add("%s -> %d %v pc=%02x:%04x A=%04x/%02x%02x X=%04x/%02x Y=%04x/%02x SP=%04x D=%04x DBR=%02x f=%02x E=%d all=%d",
-				tb.String(), n, stop, c.RK, c.PC, c.RA, c.RAh, c.RAl, c.RX, c.RXl, c.RY, c.RYl, c.SP, c.RD, c.RDBR, c.Flags(), c.E, c.AllCycles)
+			st := uint64(0)
+			if stop {
+				st = 1
+			}
+			d.addv(tb.Bytes(), uint64(n), st, uint64(c.RK), uint64(c.PC), uint64(c.RA), uint64(c.RAh), uint64(c.RAl), uint64(c.RX), uint64(c.RXl),
+				uint64(c.RY), uint64(c.RYl), uint64(c.SP), uint64(c.RD), uint64(c.RDBR), uint64(c.Flags()), uint64(c.E), c.AllCycles)
 		})
 		if i%97 == 50 {
 			c.TriggerIRQ()
@@ -561,6 +602,7 @@ func raceCmd(args []string) int {
 	secs := fs.Float64("secs", 10, "soak duration of the concurrent phase")
 	mix := fs.String("mix", "", "comma-separated job kinds (default: built-in mix)")
 	only := fs.String("only", "", "explicit jobs kind:seed,... (replay)")
+	order := fs.String("order", "before", "before: sequential reference first; after: first concurrent round on a cold process, reference afterwards")
 	once := fs.Bool("once", false, "run the sequential reference once (skip the determinism re-run)")
 	show := fs.Bool("show", false, "print the first observations of every job of the sequential phase")
 	fs.Parse(args)
@@ -593,33 +635,6 @@ func raceCmd(args []string) int {
 			jobs = append(jobs, raceJob{k, r.next() >> 1})
 		}
 	}
-	// phase 1: sequential reference (twice: the work must be deterministic on its own)
-	want := make([]*raceDigest, len(jobs))
-	rc := 0
-	t0 := time.Now()
-	for i, j := range jobs {
-		want[i] = raceKinds[j.kind](j.seed)
-		again := want[i]
-		if !*once {
-			again = raceKinds[j.kind](j.seed)
-		}
-		if *show {
-			fmt.Printf("JOB %s:%d %s\n", j.kind, j.seed, want[i])
-			for _, l := range want[i].log {
-				fmt.Printf("    %q\n", l)
-			}
-		}
-		if again.String() != want[i].String() {
-			fmt.Printf("NONDET %s:%d sequential runs differ: %s vs %s\n", j.kind, j.seed, want[i], again)
-			rc = 3
-		}
-	}
-	seqDur := time.Since(t0)
-	if rc != 0 {
-		return rc
-	}
-	// phase 2: concurrent.  Goroutine g runs jobs g, g+G, g+2G, ... round after round; a barrier at the
-	// start of every round lines the goroutines up.
 	G := *gor
 	if G > len(jobs) {
 		G = len(jobs)
@@ -635,10 +650,78 @@ func raceCmd(args []string) int {
 		perKind[k] = new(int64)
 	}
 	var mu sync.Mutex
-	deadline := time.Now().Add(time.Duration(*secs * float64(time.Second)))
+	want := make([]*raceDigest, len(jobs))
 	rounds := 0
-	for time.Now().Before(deadline) || rounds == 0 {
-		rounds++
+	report := func(i, g int, got *raceDigest) {
+		j := jobs[i]
+		if atomic.AddInt64(&fails, 1) <= 5 {
+			mu.Lock()
+			fmt.Printf("FAIL race job=%s:%d goroutine=%d round=%d concurrent=%s sequential=%s\n", j.kind, j.seed, g, rounds, got, want[i])
+			for k := range want[i].log {
+				if k < len(got.log) && got.log[k] != want[i].log[k] {
+					fmt.Printf("  first differing observation: sequential %q\n                               concurrent %q\n", want[i].log[k], got.log[k])
+					break
+				}
+			}
+			fmt.Printf("  replay: harness race -order %s -goroutines %d -secs %g -only %s\n", *order, G, *secs, strings.Join(mixDesc, ","))
+			mu.Unlock()
+		}
+	}
+	// sequential reference (twice unless -once: the work must be deterministic on its own)
+	var seqDur time.Duration
+	sequential := func() int {
+		rc := 0
+		t0 := time.Now()
+		for i, j := range jobs {
+			want[i] = raceKinds[j.kind](j.seed)
+			again := want[i]
+			if !*once {
+				again = raceKinds[j.kind](j.seed)
+			}
+			if *show {
+				fmt.Printf("JOB %s:%d %s\n", j.kind, j.seed, want[i])
+				for _, l := range want[i].log {
+					fmt.Printf("    %q\n", l)
+				}
+			}
+			if again.String() != want[i].String() {
+				fmt.Printf("NONDET %s:%d sequential runs differ: %s vs %s\n", j.kind, j.seed, want[i], again)
+				rc = 3
+			}
+		}
+		seqDur = time.Since(t0)
+		return rc
+	}
+	// One concurrent round; a barrier lines the goroutines up.
+	//   mixed round:   goroutine g runs jobs g', g'+G, g'+2G, ... (g' rotates every round) -- different kinds overlap;
+	//   by-kind round: for every kind in turn ALL goroutines run jobs of that kind at the same moment (goroutine g
+	//                  takes the (g mod n)-th job of the kind; a job creates its own instances, so several
+	//                  goroutines may run the same (kind, seed)) -- the same library code overlaps with itself,
+	//                  which is where a shared table or scratch buffer shows.
+	// With have == nil results are compared with the reference at once, otherwise they are collected in have
+	// (cold start: the reference is taken afterwards).
+	byKind := map[string][]int{}
+	var kindOrder []string
+	for i, j := range jobs {
+		if len(byKind[j.kind]) == 0 {
+			kindOrder = append(kindOrder, j.kind)
+		}
+		byKind[j.kind] = append(byKind[j.kind], i)
+	}
+	runJob := func(i, g int, have [][]*raceDigest) {
+		j := jobs[i]
+		got := raceKinds[j.kind](j.seed)
+		atomic.AddInt64(&runs, 1)
+		atomic.AddInt64(perKind[j.kind], 1)
+		if have != nil {
+			mu.Lock()
+			have[i] = append(have[i], got)
+			mu.Unlock()
+		} else if got.String() != want[i].String() {
+			report(i, g, got)
+		}
+	}
+	parallel := func(f func(g int)) {
 		var wg sync.WaitGroup
 		start := make(chan struct{})
 		for g := 0; g < G; g++ {
@@ -646,34 +729,47 @@ func raceCmd(args []string) int {
 			go func(g int) {
 				defer wg.Done()
 				<-start
-				// rotate the assignment every round so that different kinds overlap
-				for i := (g + rounds) % G; i < len(jobs); i += G {
-					j := jobs[i]
-					got := raceKinds[j.kind](j.seed)
-					atomic.AddInt64(&runs, 1)
-					atomic.AddInt64(perKind[j.kind], 1)
-					if got.String() != want[i].String() {
-						if atomic.AddInt64(&fails, 1) <= 5 {
-							mu.Lock()
-							fmt.Printf("FAIL race job=%s:%d goroutine=%d round=%d concurrent=%s sequential=%s\n", j.kind, j.seed, g, rounds, got, want[i])
-							for k := range want[i].log {
-								if k < len(got.log) && got.log[k] != want[i].log[k] {
-									fmt.Printf("  first differing observation: sequential %q\n                               concurrent %q\n", want[i].log[k], got.log[k])
-									break
-								}
-							}
-							fmt.Printf("  replay: harness race -goroutines %d -secs %g -only %s\n", G, *secs, strings.Join(mixDesc, ","))
-							mu.Unlock()
-						}
-					}
-				}
+				f(g)
 			}(g)
 		}
 		close(start)
 		wg.Wait()
-		if atomic.LoadInt64(&fails) > 0 {
-			break
+	}
+	round := func(have [][]*raceDigest, kindwise bool) {
+		rounds++
+		if kindwise {
+			for _, k := range kindOrder {
+				idx := byKind[k]
+				parallel(func(g int) { runJob(idx[(g+rounds)%len(idx)], g, have) })
+			}
+			return
 		}
+		parallel(func(g int) {
+			for i := (g + rounds) % G; i < len(jobs); i += G {
+				runJob(i, g, have)
+			}
+		})
+	}
+	if *order == "after" {
+		// cold start: the very first use of the library in this process is concurrent
+		first := make([][]*raceDigest, len(jobs))
+		round(first, true)
+		if rc := sequential(); rc != 0 {
+			return rc
+		}
+		for i := range jobs {
+			for _, got := range first[i] {
+				if got.String() != want[i].String() {
+					report(i, -1, got)
+				}
+			}
+		}
+	} else if rc := sequential(); rc != 0 {
+		return rc
+	}
+	deadline := time.Now().Add(time.Duration(*secs * float64(time.Second)))
+	for (time.Now().Before(deadline) || rounds == 0) && atomic.LoadInt64(&fails) == 0 {
+		round(nil, rounds%3 == 2)
 	}
 	var ks []string
 	for k, c := range perKind {
@@ -684,8 +780,8 @@ func raceCmd(args []string) int {
 	sort.Strings(ks)
 	fmt.Printf("kinds %s\n", strings.Join(ks, " "))
 	fmt.Printf("mix %s\n", strings.Join(mixDesc, ","))
-	fmt.Printf("race: jobs=%d goroutines=%d rounds=%d runs=%d mismatches=%d sequential_s=%.2f gomaxprocs=%d\n",
-		len(jobs), G, rounds, runs, fails, seqDur.Seconds(), runtime.GOMAXPROCS(0))
+	fmt.Printf("race: jobs=%d goroutines=%d rounds=%d runs=%d mismatches=%d sequential_s=%.2f gomaxprocs=%d order=%s\n",
+		len(jobs), G, rounds, runs, fails, seqDur.Seconds(), runtime.GOMAXPROCS(0), *order)
 	if fails > 0 {
 		return 1
 	}
